@@ -590,11 +590,14 @@ def run_batch(ctx, cases, exes, drv, flavours, tot, base):
                 st.append(None)
                 continue
             srcs, res = seg[2:].split(" ; ", 1)
-            st.append((srcs, res))
+            bsl = None
+            if res.startswith("bs ") and " ; " in res:
+                bsl, res = res.split(" ; ", 1)
+            st.append((srcs, res, bsl))
             path, xfs = pc["stages"][si]
             if parse_image(srcs) is None:
                 continue
-            hd = "xf %s %d %s" % ("tj" if path == 0 else "jt", len(xfs), " ".join(" ".join(map(str, x[:13])) for x in xfs))
+            hd = "xf %s %d %s" % (["tj", "jt", "inj"][path], len(xfs), " ".join(" ".join(map(str, x[:13])) for x in xfs))
             dlines.append(hd + " | " + srcs)
             dmap.append((i, si))
         parsed.append((pc, st))
@@ -628,7 +631,7 @@ def run_batch(ctx, cases, exes, drv, flavours, tot, base):
             if s is None:
                 complete = False
                 continue
-            srcs, res = s
+            srcs, res, bsl = s
             path, xfs = pc["stages"][si]
             src = parse_image(srcs)
             if src is None:
@@ -641,7 +644,7 @@ def run_batch(ctx, cases, exes, drv, flavours, tot, base):
             bad = []          # property-level findings on the implementation's own output
             outs_i = []
             if res.startswith("ok"):
-                outs_i = [parse_image(o) for o in res.split(" | ")[1:]]
+                outs_i = [parse_image(o) for o in res.split(" | ")[1:] if not o.startswith("pad")]
                 if any(o is None for o in outs_i) or len(outs_i) != len(xfs):
                     bad.append(("readback", "destination JPEG could not be read back / warnings: " + res[:80]))
                     outs_i = []
@@ -706,6 +709,15 @@ def run_batch(ctx, cases, exes, drv, flavours, tot, base):
             if not res.startswith("ok"):
                 complete = False
             mres = model.get((i, si))
+            mbs = None
+            if mres is not None and mres.startswith("bs ") and " ; " in mres:
+                mbs, mres = mres.split(" ; ", 1)
+            if bsl is not None:
+                vals = bsl.split()[1:]
+                if res.startswith("ok") and any(v in ("0", "-1") for v in vals):
+                    bad.append(("bufsize", "tj3TransformBufSize() refuses (returns 0 for) a request that tj3Transform() accepts"))
+                if mbs is not None and mbs != bsl:
+                    ctx.broken_tie("correspondence:tj3TransformBufSize", "model and implementation differ on %s: model=%s impl=%s" % (line[:200], mbs, bsl))
             key = "%s:%s" % (["tj", "jt", "inj"][path], kind)
             for cls, b in bad:
                 ctx.violation(b, {"case": line, "stage": si, "identity": meta.get("identity", False), "impl": res[:300]},
